@@ -536,6 +536,22 @@ func clientScripts(cfg peer.Policy, quick bool) []spec {
 		s = b
 		s.Replies = []peer.Reply{{Bit: -1}, {Bit: 1 << 40}, ok}
 		add(tag+"wild-bits", s)
+		// post-auth ads that contradict what happened on the wire (cedar's own server
+		// sends none of these attributes; the client must not take its outcome from them)
+		for i, ex := range []map[string]string{
+			{"AuthMethods": "SSL"},
+			{"AuthMethods": "KERBEROS", "Authentication": "NO", "Encryption": "NO", "CryptoMethods": "BLOWFISH", "User": "root@elsewhere"},
+			{"Authentication": "NO", "NegotiatedAuth": "FS"},
+			{"Encryption": "YES", "CryptoMethods": "AES", "Integrity": "YES"},
+			{"AuthMethods": "CLAIMTOBE,FS", "AuthMethodsList": "FS"},
+		} {
+			s = b
+			s.PostExtra = ex
+			s.PostExtraBool = map[string]bool{"Authenticated": i%2 == 0, "Encrypted": i%2 == 1}
+			add(fmt.Sprintf("%spost-contradicts-%d", tag, i), s)
+			s.Auth, s.Replies = "NO", nil
+			add(fmt.Sprintf("%spost-contradicts-%d-noauth", tag, i), s)
+		}
 	}
 	return out
 }
